@@ -1,0 +1,23 @@
+//go:build verif
+
+package functions
+
+import (
+	"diagonal.works/b6"
+	"diagonal.works/b6/verifrt"
+)
+
+// C24: whatever n is (negative included), the collection take() returns never
+// reports a negative count, never more than the source reports, and its
+// iterator starts with a budget equal to the count bound.
+func verifLemma_C24_take_count(c b6.UntypedCollection, n int) {
+	verifrt.Assume(c != nil)
+	r, err := take(nil, c, n)
+	verifrt.Assert(err == nil, "take-succeeds")
+	t, ok := r.AnyCollection.(*takeCollection)
+	verifrt.Assert(ok && t.n >= 0 && (n < 0 || t.n == n), "budget-is-n-clamped-at-zero")
+	cnt, known := r.Count()
+	verifrt.Assert(!known || (cnt >= 0 && cnt <= t.n), "count-within-budget")
+	it, isTake := t.Begin().(*takeCollection)
+	verifrt.Assert(isTake && it.r == t.n, "iterator-budget-equals-n")
+}
